@@ -1,5 +1,5 @@
 (** C40 proofs. *)
-From Coq Require Import List NArith Bool Lia.
+From Coq Require Import List NArith Bool Lia Arith.
 From C40 Require Import Model.
 Import ListNotations.
 Local Open Scope N_scope.
@@ -206,18 +206,19 @@ Proof.
   cbn [srun_chunks concat]. rewrite srun_app. destruct (srun st c) as [s1 e1]. now rewrite IH.
 Qed.
 
-Definition with_cur (st : sst) (c : list N) : sst := mk c (in_data st) (inheader st) (inbody st).
-
 Lemma srun_line_bytes : forall l st c, Forall (fun b => b <> LF) l ->
-  srun (with_cur st c) l = (with_cur st (rev l ++ c), []).
+  srun (set_cur st c) l = (set_cur st (rev l ++ c), []).
 Proof.
   induction l as [|b l IH]; intros st c Hl; [reflexivity|].
   inversion Hl as [|? ? Hb Hl']; subst. cbn [srun]. unfold sstep at 1. rewrite (neq_eqb _ _ Hb).
-  cbn [with_cur cur in_data inheader inbody]. change (mk (b :: c) (in_data st) (inheader st) (inbody st)) with (with_cur st (b :: c)).
+  change (set_cur (set_cur st c) (b :: cur (set_cur st c))) with (set_cur st (b :: c)).
   rewrite (IH st (b :: c) Hl'). cbn [rev app]. rewrite <- app_assoc. reflexivity.
 Qed.
 
-Lemma handle_line_cur : forall st c l, handle_line (with_cur st c) l = handle_line st l.
+Lemma set_cur_id : forall st, cur st = [] -> st = set_cur st [].
+Proof. intros [c d ih ib f n rf ef] H. cbn in H. subst. reflexivity. Qed.
+
+Lemma handle_line_cur : forall st c l, handle_line (set_cur st c) l = handle_line st l.
 Proof. reflexivity. Qed.
 
 (** a complete line followed by CR LF, starting with an empty buffer *)
@@ -225,13 +226,12 @@ Lemma srun_line : forall l st rest, Forall (fun b => b <> LF) l -> cur st = [] -
   srun st (l ++ CR :: LF :: rest) =
   let '(s1, e1) := handle_line st l in let '(s2, e2) := srun s1 rest in (s2, e1 ++ e2).
 Proof.
-  intros l st rest Hl Hc.
-  assert (Hst : st = with_cur st []) by (destruct st; cbn in Hc; subst; reflexivity).
-  rewrite Hst at 1. rewrite srun_app, (srun_line_bytes l st [] Hl), app_nil_r.
-  cbn [srun]. unfold sstep at 1. cbn [N.eqb CR LF Pos.eqb]. cbn [with_cur cur in_data inheader inbody].
-  unfold sstep at 1. cbn [N.eqb LF Pos.eqb cur]. cbn [N.eqb CR Pos.eqb].
-  change (mk (CR :: rev l) (in_data st) (inheader st) (inbody st)) with (with_cur st (CR :: rev l)).
-  rewrite handle_line_cur, rev_involutive.
+  intros l st rest Hl Hc. rewrite (set_cur_id st Hc) at 1.
+  rewrite srun_app, (srun_line_bytes l st [] Hl), app_nil_r.
+  cbn [srun]. unfold sstep at 1. cbn [N.eqb CR LF Pos.eqb].
+  change (set_cur (set_cur st (rev l)) (CR :: cur (set_cur st (rev l)))) with (set_cur st (CR :: rev l)).
+  unfold sstep at 1. cbn [N.eqb LF Pos.eqb]. change (cur (set_cur st (CR :: rev l))) with (CR :: rev l).
+  cbn [N.eqb CR Pos.eqb]. rewrite handle_line_cur, rev_involutive.
   destruct (handle_line st l) as [s1 e1]. destruct (srun s1 rest) as [s2 e2]. reflexivity.
 Qed.
 
@@ -248,52 +248,121 @@ Proof.
   intros l H. unfold stuffl. destruct (starts_dot l); [|exact H]. constructor; [discriminate|exact H].
 Qed.
 
-(** the lines the message object receives, by server flags *)
-Definition settled (st : sst) : bool := inheader st || inbody st.
-
-Lemma deliver_settled : forall st l, settled st = true ->
-  snd (deliver st l) = [MsgLine l] /\ settled (fst (deliver st l)) = true
-  /\ cur (fst (deliver st l)) = [] /\ in_data (fst (deliver st l)) = true.
+(** message.lineReceived calls *)
+Lemma do_calls_app : forall rf a n b,
+  do_calls rf n (a ++ b) =
+  let '(n1, f1, e1) := do_calls rf n a in
+  if f1 then (n1, true, e1) else let '(n2, f2, e2) := do_calls rf n1 b in (n2, f2, e1 ++ e2).
 Proof.
-  intros st l Hs. unfold deliver, settled in *. cbn [fst snd cur in_data inheader inbody].
-  destruct (inheader st), (inbody st); try discriminate Hs; cbn [negb andb orb app];
-    repeat split; destruct (nonempty l); reflexivity.
+  induction a as [|l a IH]; intros n b; cbn [app do_calls].
+  - destruct (do_calls rf n b) as [[n2 f2] e2]. reflexivity.
+  - destruct (match rf with Some k => Nat.eqb k n | None => false end); [reflexivity|].
+    rewrite IH. destruct (do_calls rf (S n) a) as [[n1 f1] e1]. destruct f1; [reflexivity|].
+    destruct (do_calls rf n1 b) as [[n2 f2] e2]. reflexivity.
 Qed.
 
-Lemma srun_lines_settled : forall lines st, Forall line_ok lines ->
-  settled st = true -> cur st = [] -> in_data st = true ->
-  exists st', srun st (wire_lines lines) = (st', map MsgLine lines)
-              /\ cur st' = [] /\ in_data st' = true.
+Lemma do_calls_none : forall ls n, do_calls None n ls = ((n + length ls)%nat, false, map MsgLine ls).
 Proof.
-  induction lines as [|l lines IH]; intros st Hok Hs Hc Hd.
+  induction ls as [|l ls IH]; intros n; cbn [do_calls length map]; [now rewrite Nat.add_0_r|].
+  rewrite IH. now rewrite Nat.add_succ_r.
+Qed.
+
+Lemma do_calls_body : forall rf ls n, forallb is_body_ev (snd (do_calls rf n ls)) = true.
+Proof.
+  induction ls as [|l ls IH]; intros n; cbn [do_calls]; [reflexivity|].
+  destruct (match rf with Some k => Nat.eqb k n | None => false end); [reflexivity|].
+  specialize (IH (S n)). destruct (do_calls rf (S n) ls) as [[n' f] e]. cbn [snd] in *. exact IH.
+Qed.
+
+(** the lines after the first one: the flags are settled, every line is one lineReceived call, and once
+    the message has refused a line nothing more happens until the terminator *)
+Definition settled (st : sst) : bool := inheader st || inbody st.
+
+Definition ready (st : sst) : Prop := cur st = [] /\ in_data st = true.
+
+Lemma srun_lines_failed : forall lines st, Forall line_ok lines -> ready st -> failed st = true ->
+  exists st', srun st (wire_lines lines) = (st', []) /\ ready st' /\ failed st' = true
+              /\ refuse st' = refuse st /\ eomfail st' = eomfail st.
+Proof.
+  induction lines as [|l lines IH]; intros st Hok [Hc Hd] Hf.
   - exists st. repeat split; assumption.
   - inversion Hok as [|? ? Hl Hls]; subst. unfold wire_lines. cbn [flat_map]. fold (wire_lines lines).
     rewrite <- app_assoc. cbn [app].
     rewrite srun_line by (try apply stuffl_lf, line_ok_lf, Hl; exact Hc).
-    unfold handle_line. rewrite Hd, data_line_stuffl.
-    destruct (deliver_settled st l Hs) as (D1 & D2 & D3 & D4).
-    destruct (deliver st l) as [s1 e1]. cbn [fst snd] in *. subst e1.
-    destruct (IH s1 Hls D2 D3 D4) as (st' & R & R1 & R2). rewrite R.
-    exists st'. repeat split; assumption.
+    unfold handle_line. rewrite Hd, data_line_stuffl. unfold deliver. rewrite Hf.
+    destruct (IH (mk [] true (inheader st) (inbody st) true (calls st) (refuse st) (eomfail st)) Hls)
+      as (st' & R & R1 & R2 & R3 & R4); [split; reflexivity|reflexivity|].
+    rewrite R. exists st'. repeat split; try assumption; apply R1.
 Qed.
 
-Lemma srun_lines_fresh : forall lines, Forall line_ok lines ->
-  exists st', srun data_start (wire_lines lines) = (st', map MsgLine (header_view lines))
-              /\ cur st' = [] /\ in_data st' = true.
+Lemma srun_lines_settled : forall lines st, Forall line_ok lines ->
+  settled st = true -> ready st -> failed st = false ->
+  exists st', srun st (wire_lines lines) = (st', snd (do_calls (refuse st) (calls st) lines))
+              /\ ready st' /\ failed st' = snd (fst (do_calls (refuse st) (calls st) lines))
+              /\ refuse st' = refuse st /\ eomfail st' = eomfail st.
 Proof.
-  intros [|l lines] Hok.
-  - exists data_start. repeat split.
+  induction lines as [|l lines IH]; intros st Hok Hs [Hc Hd] Hf.
+  - exists st. cbn [do_calls fst snd]. repeat split; assumption.
+  - inversion Hok as [|? ? Hl Hls]; subst. unfold wire_lines. cbn [flat_map]. fold (wire_lines lines).
+    rewrite <- app_assoc. cbn [app].
+    rewrite srun_line by (try apply stuffl_lf, line_ok_lf, Hl; exact Hc).
+    unfold handle_line. rewrite Hd, data_line_stuffl. unfold deliver. rewrite Hf.
+    assert (Hfresh : negb (inheader st) && negb (inbody st) = false).
+    { unfold settled in Hs. destruct (inheader st), (inbody st); try discriminate Hs; reflexivity. }
+    rewrite Hfresh. cbn [andb app]. cbn [do_calls].
+    destruct (match refuse st with Some k => Nat.eqb k (calls st) | None => false end) eqn:Er.
+    + (* this call raises *)
+      destruct (srun_lines_failed lines
+                  (mk [] true (inheader st) (if nonempty l then inbody st else true) true (calls st) (refuse st) (eomfail st)) Hls)
+        as (st' & R & R1 & R2 & R3 & R4); [split; reflexivity|reflexivity|].
+      rewrite R. exists st'. cbn [fst snd]. rewrite app_nil_r. repeat split; try assumption; apply R1.
+    + set (s1 := mk [] true (inheader st) (if nonempty l then inbody st else true) false (S (calls st)) (refuse st) (eomfail st)).
+      destruct (IH s1 Hls) as (st' & R & R1 & R2 & R3 & R4).
+      * unfold settled, s1. cbn [inheader inbody]. unfold settled in Hs.
+        destruct (inheader st), (inbody st), (nonempty l); try discriminate Hs; reflexivity.
+      * split; reflexivity.
+      * reflexivity.
+      * cbn [s1 refuse calls eomfail] in R, R2, R3, R4.
+        destruct (do_calls (refuse st) (S (calls st)) lines) as [[n' f] e] eqn:Ed. cbn [fst snd] in *.
+        change (snd (mk [] true (inheader st) (if nonempty l then inbody st else true) false (S (calls st)) (refuse st) (eomfail st), [MsgLine l]))
+          with [MsgLine l].
+        fold s1. rewrite R. exists st'. cbn [app]. repeat split; try assumption; apply R1.
+Qed.
+
+(** the whole body, from the state right after DATA, for any behaviour of the message object *)
+Lemma srun_lines_fresh : forall lines rf ef, Forall line_ok lines ->
+  exists st', srun (data_start_with rf ef) (wire_lines lines) = (st', snd (do_calls rf 0 (header_view lines)))
+              /\ ready st' /\ failed st' = snd (fst (do_calls rf 0 (header_view lines)))
+              /\ eomfail st' = ef.
+Proof.
+  intros [|l lines] rf ef Hok.
+  - exists (data_start_with rf ef). repeat split.
   - inversion Hok as [|? ? Hl Hls]; subst. unfold wire_lines. cbn [flat_map]. fold (wire_lines lines).
     rewrite <- app_assoc. cbn [app].
     rewrite srun_line by (try apply stuffl_lf, line_ok_lf, Hl; reflexivity).
-    unfold handle_line. cbn [in_data data_start]. rewrite data_line_stuffl.
-    unfold deliver. cbn [inheader inbody data_start negb andb].
-    assert (Hset : settled (mk [] true (if has_colon l then true else false)
-                     (if nonempty l then if negb (has_colon l) && nonempty l then true else false else true)) = true).
-    { unfold settled. cbn [inheader inbody]. destruct (has_colon l), (nonempty l); reflexivity. }
-    destruct (srun_lines_settled lines _ Hls Hset eq_refl eq_refl) as (st' & R & R1 & R2).
-    rewrite R. exists st'. split; [|split; assumption].
-    unfold header_view. destruct (negb (has_colon l) && nonempty l); reflexivity.
+    unfold handle_line. cbn [in_data data_start_with]. rewrite data_line_stuffl.
+    unfold deliver. cbn [failed inheader inbody calls refuse eomfail data_start_with negb andb].
+    unfold header_view.
+    set (blank := negb (has_colon l) && nonempty l).
+    assert (Hcalls : (if blank then [[]] else []) ++ [l] = if blank then [[]; l] else [l]) by (destruct blank; reflexivity).
+    rewrite Hcalls.
+    assert (Hhv : (if blank then [] :: l :: lines else l :: lines) = (if blank then [[]; l] else [l]) ++ lines)
+      by (destruct blank; reflexivity).
+    rewrite Hhv, do_calls_app.
+    destruct (do_calls rf 0 (if blank then [[]; l] else [l])) as [[n1 f1] e1] eqn:E1.
+    set (ih := if has_colon l then true else false).
+    set (ib := if nonempty l then if blank then true else false else true).
+    destruct f1.
+    + destruct (srun_lines_failed lines (mk [] true ih ib true n1 rf ef) Hls) as (st' & R & R1 & R2 & R3 & R4);
+        [split; reflexivity|reflexivity|].
+      rewrite R. exists st'. cbn [fst snd]. rewrite app_nil_r. cbn [eomfail] in R4. repeat split; try assumption; apply R1.
+    + destruct (srun_lines_settled lines (mk [] true ih ib false n1 rf ef) Hls) as (st' & R & R1 & R2 & R3 & R4).
+      * unfold settled, ih, ib, blank. cbn [inheader inbody]. destruct (has_colon l), (nonempty l); reflexivity.
+      * split; reflexivity.
+      * reflexivity.
+      * cbn [refuse calls eomfail] in R, R2, R3, R4. rewrite R.
+        destruct (do_calls rf n1 lines) as [[n2 f2] e2]. cbn [fst snd] in *.
+        exists st'. repeat split; try assumption; apply R1.
 Qed.
 
 (** ---- the property theorems ---- *)
@@ -315,61 +384,81 @@ Qed.
 
 Definition no_cmd (e : sev) : bool := match e with CmdLine _ => false | _ => true end.
 
+(** any behaviour of the message object *)
+Lemma any_message : forall lines cs ns rf ef,
+  lines <> [] -> Forall line_ok lines ->
+  concat cs = unlines lines -> Forall (fun c => c <> []) cs ->
+  concat ns = client_wire cs ->
+  snd (srun_chunks (data_start_with rf ef) ns) = outcome rf ef (header_view lines)
+  /\ in_data (fst (srun_chunks (data_start_with rf ef) ns)) = false
+  /\ cur (fst (srun_chunks (data_start_with rf ef) ns)) = [].
+Proof.
+  intros lines cs ns rf ef Hne Hok Hcs Hn Hns.
+  rewrite srun_chunks_concat, Hns, (wire_of_lines lines cs Hne Hok Hcs Hn), srun_app.
+  destruct (srun_lines_fresh lines rf ef Hok) as (st' & R & [R1 R2] & R3 & R4). rewrite R.
+  change [DOT; CR; LF] with ([DOT] ++ CR :: LF :: []).
+  rewrite srun_line by (try (repeat constructor; discriminate); exact R1).
+  unfold handle_line. rewrite R2. cbn [data_line N.eqb DOT Pos.eqb end_of_data srun fst snd app].
+  unfold outcome. destruct (do_calls rf 0 (header_view lines)) as [[n f] e]. cbn [fst snd] in *.
+  rewrite R3, R4. rewrite app_nil_r. repeat split.
+Qed.
+
 Lemma exact_lines : forall lines cs ns,
   lines <> [] -> Forall line_ok lines ->
   concat cs = unlines lines -> Forall (fun c => c <> []) cs ->
   concat ns = client_wire cs ->
-  snd (srun_chunks data_start ns) = map MsgLine (header_view lines) ++ [Eom]
+  snd (srun_chunks data_start ns) = map MsgLine (header_view lines) ++ [Eom; Reply 250]
   /\ in_data (fst (srun_chunks data_start ns)) = false
   /\ cur (fst (srun_chunks data_start ns)) = [].
 Proof.
   intros lines cs ns Hne Hok Hcs Hn Hns.
-  rewrite srun_chunks_concat, Hns, (wire_of_lines lines cs Hne Hok Hcs Hn), srun_app.
-  destruct (srun_lines_fresh lines Hok) as (st' & R & R1 & R2). rewrite R.
-  change [DOT; CR; LF] with ([DOT] ++ CR :: LF :: []).
-  rewrite srun_line by (try (repeat constructor; discriminate); exact R1).
-  unfold handle_line. rewrite R2. cbn. repeat split.
+  destruct (any_message lines cs ns None false Hne Hok Hcs Hn Hns) as (E & H1 & H2).
+  split; [|split; assumption]. fold data_start in E. rewrite E. unfold outcome. now rewrite do_calls_none.
 Qed.
 
 Lemma forallb_app_l : forall (A : Type) (f : A -> bool) a b, forallb f (a ++ b) = true -> forallb f a = true.
 Proof. intros A f a b H. rewrite forallb_app in H. now apply andb_true_iff in H as [H _]. Qed.
 
-Lemma only_lines_before_terminator : forall lines cs p q,
+Lemma only_body_before_terminator : forall lines cs p q rf ef,
   lines <> [] -> Forall line_ok lines ->
   concat cs = unlines lines -> Forall (fun c => c <> []) cs ->
   p ++ q = client_wire cs -> q <> [] ->
-  forallb is_msgline (snd (srun data_start p)) = true.
+  forallb is_body_ev (snd (srun (data_start_with rf ef) p)) = true.
 Proof.
-  intros lines cs p q Hne Hok Hcs Hn Hpq Hq.
+  intros lines cs p q rf ef Hne Hok Hcs Hn Hpq Hq.
   rewrite (wire_of_lines lines cs Hne Hok Hcs Hn) in Hpq.
   destruct (exists_last Hq) as (q' & x & ->).
   change [DOT; CR; LF] with ([DOT; CR] ++ [LF]) in Hpq. rewrite !app_assoc in Hpq.
   apply app_inj_tail in Hpq as [Hpq _].
-  assert (Hall : forallb is_msgline (snd (srun data_start (wire_lines lines ++ [DOT; CR]))) = true).
-  { rewrite srun_app. destruct (srun_lines_fresh lines Hok) as (st' & R & R1 & R2). rewrite R.
-    assert (Hst : st' = with_cur st' []) by (destruct st'; cbn in R1; subst; reflexivity).
-    rewrite Hst, srun_line_bytes by (repeat constructor; discriminate). cbn [snd]. rewrite app_nil_r.
-    clear. induction (header_view lines); [reflexivity|exact IHl]. }
+  assert (Hall : forallb is_body_ev (snd (srun (data_start_with rf ef) (wire_lines lines ++ [DOT; CR]))) = true).
+  { rewrite srun_app. destruct (srun_lines_fresh lines rf ef Hok) as (st' & R & [R1 R2] & R3 & R4). rewrite R.
+    rewrite (set_cur_id st' R1), srun_line_bytes by (repeat constructor; discriminate). cbn [snd]. rewrite app_nil_r.
+    apply do_calls_body. }
   rewrite <- Hpq, srun_app in Hall.
-  destruct (srun data_start p) as [s1 e1]. destruct (srun s1 q') as [s2 e2]. cbn [snd] in *.
+  destruct (srun (data_start_with rf ef) p) as [s1 e1]. destruct (srun s1 q') as [s2 e2]. cbn [snd] in *.
   exact (forallb_app_l _ _ _ _ Hall).
 Qed.
 
-Lemma never_a_command : forall lines cs p q,
+Lemma never_a_command : forall lines cs p q rf ef,
   lines <> [] -> Forall line_ok lines ->
   concat cs = unlines lines -> Forall (fun c => c <> []) cs ->
   p ++ q = client_wire cs ->
-  forallb no_cmd (snd (srun data_start p)) = true.
+  forallb no_cmd (snd (srun (data_start_with rf ef) p)) = true.
 Proof.
-  intros lines cs p q Hne Hok Hcs Hn Hpq.
+  intros lines cs p q rf ef Hne Hok Hcs Hn Hpq.
   destruct q as [|x q].
   - rewrite app_nil_r in Hpq. subst p.
-    destruct (exact_lines lines cs [client_wire cs] Hne Hok Hcs Hn) as [E _]; [cbn; now rewrite app_nil_r|].
+    destruct (any_message lines cs [client_wire cs] rf ef Hne Hok Hcs Hn) as [E _]; [cbn; now rewrite app_nil_r|].
     rewrite srun_chunks_concat in E. cbn [concat] in E. rewrite app_nil_r in E. rewrite E.
-    rewrite forallb_app. cbn. rewrite andb_true_r. clear. induction (header_view lines); [reflexivity|exact IHl].
-  - pose proof (only_lines_before_terminator lines cs p (x :: q) Hne Hok Hcs Hn Hpq) as H.
+    unfold outcome. pose proof (do_calls_body rf (header_view lines) 0) as Hb.
+    destruct (do_calls rf 0 (header_view lines)) as [[n f] e]. cbn [snd] in Hb.
+    rewrite forallb_app. apply andb_true_iff. split.
+    + clear -Hb. induction e as [|x e IH]; [reflexivity|]. cbn [forallb] in *. apply andb_true_iff in Hb as [H1 H2].
+      rewrite (IH H2). destruct x; try discriminate H1; reflexivity.
+    + destruct f; reflexivity.
+  - pose proof (only_body_before_terminator lines cs p (x :: q) rf ef Hne Hok Hcs Hn Hpq) as H.
     specialize (H ltac:(discriminate)).
-    induction (snd (srun data_start p)) as [|e l IH]; [reflexivity|].
+    induction (snd (srun (data_start_with rf ef) p)) as [|e l IH]; [reflexivity|].
     cbn [forallb] in *. apply andb_true_iff in H as [H1 H2]. rewrite (IH H2).
     destruct e; try discriminate H1; reflexivity.
 Qed.
@@ -388,16 +477,16 @@ Qed.
 
 (** the degenerate body with no line at all: the client sends CR LF . CR LF, i.e. one empty line *)
 Lemma empty_body : client_wire [] = [CR; LF; DOT; CR; LF]
-  /\ snd (srun data_start (client_wire [])) = [MsgLine []; Eom].
+  /\ snd (srun data_start (client_wire [])) = [MsgLine []; Eom; Reply 250].
 Proof. split; vm_compute; reflexivity. Qed.
 
 (** F13 on the pinned transformChunk: body ".\nQUIT\n" read in one chunk, and body "a\n.\nQUIT\n" read
     as "a\n" + ".\nQUIT\n": the message ends early and QUIT reaches the command interpreter *)
 Lemma pinned_code_refuted :
   snd (srun data_start (old_client_wire [[46; 10; 81; 85; 73; 84; 10]]))
-    = [Eom; CmdLine [81; 85; 73; 84]; CmdLine [46]]
+    = [Eom; Reply 250; CmdLine [81; 85; 73; 84]; CmdLine [46]]
   /\ snd (srun data_start (old_client_wire [[97; 10]; [46; 10; 81; 85; 73; 84; 10]]))
-    = [MsgLine []; MsgLine [97]; Eom; CmdLine [81; 85; 73; 84]; CmdLine [46]].
+    = [MsgLine []; MsgLine [97]; Eom; Reply 250; CmdLine [81; 85; 73; 84]; CmdLine [46]].
 Proof. split; vm_compute; reflexivity. Qed.
 
 (** the hypotheses are inhabited by a non-trivial body: dot-lines at the start and at read-chunk starts *)
@@ -406,7 +495,7 @@ Example hostile_body :
   let cs := [[46; 10]; [81; 85; 73; 84; 10]; [46; 46; 10; 10]; [46; 97; 10]] in
   lines <> [] /\ Forall line_ok lines /\ concat cs = unlines lines /\ Forall (fun c => c <> []) cs
   /\ snd (srun_chunks data_start (map (fun b => [b]) (client_wire cs)))
-     = map MsgLine ([] :: lines) ++ [Eom].
+     = map MsgLine ([] :: lines) ++ [Eom; Reply 250].
 Proof.
   cbv zeta. split; [discriminate|]. split.
   - repeat constructor; discriminate.
@@ -436,7 +525,7 @@ Definition msg_ok (m : list (list N) * list (list N)) : Prop :=
 Lemma session_exact_lines : forall (ms : list (list (list N) * list (list N))) (ls : bool),
   Forall msg_ok ms ->
   Forall2 (fun m w => forall ns, concat ns = w ->
-             snd (srun_chunks data_start ns) = map MsgLine (header_view (fst m)) ++ [Eom]
+             snd (srun_chunks data_start ns) = map MsgLine (header_view (fst m)) ++ [Eom; Reply 250]
              /\ in_data (fst (srun_chunks data_start ns)) = false)
           ms (session_wires ls (map snd ms)).
 Proof.
@@ -445,3 +534,11 @@ Proof.
   destruct Hm as (H1 & H2 & H3 & H4). intros ns Hns. cbn [fst].
   destruct (exact_lines lines cs ns H1 H2 H3 H4 Hns) as (E1 & E2 & _). split; assumption.
 Qed.
+
+(** a message object refusing its third lineReceived call while command-looking lines follow *)
+Example refusing_message :
+  let lines := [[97]; [98]; [78; 79; 79; 80]; [81; 85; 73; 84]] in
+  outcome (Some 2%nat) false (header_view lines) = [MsgLine []; MsgLine [97]; MsgRefuse [98]; MsgLost; Reply 552]
+  /\ snd (srun_chunks (data_start_with (Some 2%nat) false) (map (fun b => [b]) (client_wire [unlines lines])))
+     = [MsgLine []; MsgLine [97]; MsgRefuse [98]; MsgLost; Reply 552].
+Proof. split; vm_compute; reflexivity. Qed.
